@@ -158,24 +158,32 @@ class TruncatedLevyMeasure(LevyMeasure):
         if a > b:
             raise ValueError("Expected a<b when integrating the levy measure")
         aa, bb = self._truncated_interval(a, b)
+        if aa == bb:
+            return 0.0  # empty (or one-point) intersection with the truncation interval
         return self.levy_measure.integrate(aa, bb)
 
     def integrate_against_x(self, a: float, b: float) -> float:
         if a > b:
             raise ValueError("Expected a<b when integrating the levy measure")
         aa, bb = self._truncated_interval(a, b)
+        if aa == bb:
+            return 0.0  # empty (or one-point) intersection with the truncation interval
         return self.levy_measure.integrate_against_x(aa, bb)
 
     def integrate_against_xx(self, a: float, b: float) -> float:
         if a > b:
             raise ValueError("Expected a<b when integrating the levy measure")
         aa, bb = self._truncated_interval(a, b)
+        if aa == bb:
+            return 0.0  # empty (or one-point) intersection with the truncation interval
         return self.levy_measure.integrate_against_xx(aa, bb)
 
     def integrate_against_xn(self, a: float, b: float, n: int):
         if a > b:
             raise ValueError("Expected a<b when integrating the levy measure")
         aa, bb = self._truncated_interval(a, b)
+        if aa == bb:
+            return 0.0  # empty (or one-point) intersection with the truncation interval
         return self.levy_measure.integrate_against_xn(aa, bb, n)
 
 
